@@ -23,6 +23,13 @@ EXPLANATION = (
     "Obligations the solvers leave open are reported as violations only if a failing input is found and replayed natively through the real code."
 )
 
+WF_FUNCS = [
+    ("extender", "wire fencing: an extended segment that is accepted starts/ends outside, stays inside, is shorter than maxlength and contains the source segment", 30),
+    ("subt_acceptance", "wire fencing: success => allowed start side; result is the path or its time reversal; input frames untouched", 10),
+    ("wire_fencing", "wire fencing: ACC => starts left, ends outside, interior inside, within the length limit, reaches lambda_i; old frames untouched", 40),
+    ("run_md", "run_md installs the trial (with its weight vector) exactly when the status is ACC; a rejected move leaves the old path object, its frames and weights in place", 2),
+]
+
 FUNCS = [
     ("EngineBase.add_to_path", "stop/success rule", 2),
     ("Path.get_shooting_point", "shooting points are never end points", 1),
@@ -35,7 +42,9 @@ def jobs(tier):
     # zero swaps and the own-ensemble weight are part of C09's statement too: same contracts as C11 / C10
     js.append(("e1", {"name": "retis_swap_zero", "registry": "contracts.tis_moves", "key": "retis_swap_zero", "clause": "zero swap: ACC => valid, old paths untouched", "cost": 60, "parallel": 12, "cases": ["plain"]}))
     js.append(("e1", {"name": "calc_cv_vector", "registry": "contracts.tis_wf", "key": "calc_cv_vector", "clause": "accepted path has non-zero weight in its own ensemble (crossing <=> weight 1)", "cost": 5, "parallel": 4}))
+    js += [("e1", {"name": k, "registry": "contracts.tis_moves", "key": k, "clause": cl, "cost": cost, "parallel": 12 if cost > 20 else 4}) for k, cl, cost in WF_FUNCS]
     js.append(("py", {"name": "native_crosscheck", "module": "props.C09", "fn": "native_crosscheck"}))
+    js.append(("py", {"name": "native_crosscheck_wf", "module": "props.C09", "fn": "native_crosscheck_wf"}))
     return js
 
 
@@ -103,6 +112,15 @@ def search(obname, limit=20000):
     if fn == "retis_swap_zero":
         from props import C11
         return C11.search(obname)
+    if fn == "run_md":
+        from vf.native_moves import run_runmd
+        for n in (1, 2):
+            for status in ("ACC", "NCR", "BWI", "FTL", "BTX", "0-L", "NSG", "QEA", "KOB", "XXX"):
+                w = {"status": status, "n": n, "function": "run_md"}
+                bad, info = run_runmd(w)
+                if bad:
+                    return {"witness": w, "native": {"reproduced": True, "violations": bad, "info": info, "detail": bad[:3]}}
+        return None
     if fn not in ("shoot", "native_crosscheck", "EngineBase.add_to_path", "Path.get_shooting_point"):
         return None
     known = None
@@ -110,7 +128,7 @@ def search(obname, limit=20000):
         if k > limit:
             break
         r = _run(w)
-        if r["reproduced"]:
+        if r["reproduced"] and (obname.startswith("native_crosscheck") or relevant(obname, {"native": r})):
             if any(c(w, r) for c in KNOWN_CLASSES):
                 known = known or {"witness": w, "native": r}
             else:
@@ -118,12 +136,27 @@ def search(obname, limit=20000):
     return known
 
 
+def relevant(obname, found):
+    from vf.native_moves import relevant as rel
+    return rel(obname, found)
+
+
 def replay(obname, w):
+    if obname.split("/")[0] == "run_md" and (w or {}).get("function") != "run_md":
+        # the solver's model fixes only the status code; the native oracle enumerates the statuses
+        hit = search(obname)
+        return hit["native"] if hit else {"reproduced": False, "detail": "no status reproduces it natively"}
     if not w:
         return {"reproduced": False, "detail": "no witness"}
     if "old0" in w:
         from props import C11
         return C11._run(w)
+    if w.get("function") == "wire_fencing":
+        return _run_wf(w)
+    if w.get("function") == "run_md":
+        from vf.native_moves import run_runmd
+        bad, info = run_runmd(w)
+        return {"reproduced": bool(bad), "violations": bad, "info": info, "detail": bad[:3]}
     if w.get("function") == "shoot" or "back" in w:
         return _run(w)
     fn = obname.split("/")[0]
@@ -167,3 +200,45 @@ def native_crosscheck(spec, tier, seed):
         obs.append({"name": f"native_crosscheck/{cls}", "result": "sat", "label": "bounded", "backend": "cpython", "time_s": 0.0, "engine": "native",
                     "witness": hit["witness"], "solver_output": str(hit["native"]["detail"])})
     return {"job": "native_crosscheck", "obligations": obs, "coverage_extra": {"native_scenarios": n}}
+
+
+def _wf_scenarios(n, seed):
+    """Deterministic pseudo-random wire-fencing scenarios on a 0.1 grid that includes every interface value (ties)."""
+    import random
+    rnd = random.Random(seed)
+    grid = [round(-0.3 + 0.1 * k, 1) for k in range(17)]  # -0.3 .. 1.3
+    L, M, R = 0.0, 0.3, 1.0
+    for k in range(n):
+        cap = rnd.choice([None, 0.6, 0.8, 1.0])
+        ln = rnd.randint(3, 9)
+        old = [rnd.choice([-0.2, -0.1, 0.0])] + [rnd.choice(grid[3:14]) for _ in range(ln - 2)] + [rnd.choice([-0.1, 0.0, 1.0, 1.1])]
+        scripts = [[rnd.choice(grid) for _ in range(rnd.randint(1, 5))] for _ in range(8)]
+        yield {"old": old, "interfaces": (L, M, R), "cap": cap, "maxlength": rnd.choice([6, 8, 12, 40]), "n_jumps": rnd.choice([None, 1, 2, 3]),
+               "randoms": [rnd.choice([0.0, 0.1, 0.5, 0.9, 0.999]) for _ in range(6)], "integers": [rnd.randint(1, 7) for _ in range(4)],
+               "scripts": scripts, "function": "wire_fencing"}
+
+
+def _run_wf(w):
+    from vf.native_moves import run_wf
+    bad, info = run_wf(w)
+    return {"reproduced": bool(bad), "violations": bad, "info": info, "detail": bad[:3]}
+
+
+def native_crosscheck_wf(spec, tier, seed):
+    """Bounded: the real wire_fencing() (with the real shoot / extender / subt_acceptance under it) on pseudo-random scripted scenarios."""
+    n = 1500 if tier == "quick" else 20000
+    ran = acc = 0
+    first_new = None
+    for w in _wf_scenarios(n, 20240 + int(seed or 0)):
+        r = _run_wf(w)
+        ran += 1
+        acc += bool(r["info"].get("accepted"))
+        if r["reproduced"] and first_new is None:
+            first_new = {"witness": w, "native": r}
+    obs = [{"name": "native_crosscheck_wf/real_wire_fencing_meets_c09_oracle_on_scripted_scenarios", "result": "sat" if first_new else "unsat", "label": "bounded",
+            "backend": "cpython", "time_s": 0.0, "engine": "native", "witness": first_new["witness"] if first_new else None,
+            "solver_output": None if not first_new else str(first_new["native"]["detail"])}]
+    if not acc:
+        obs.append({"name": "native_crosscheck_wf/some_scenario_is_accepted", "result": "unknown", "label": "bounded", "backend": "cpython", "time_s": 0.0,
+                    "engine": "native", "witness": None, "solver_output": "no scripted scenario was accepted: the cross-check is vacuous"})
+    return {"job": "native_crosscheck_wf", "obligations": obs, "coverage_extra": {"native_wf_scenarios": ran, "native_wf_accepted": acc}}
